@@ -60,6 +60,17 @@ CLAIMED = {
         "6 C15",
         TECH,
     ),
+    "C08": (
+        "Bounded solver-based check of MapSpec: shape_to_strides/_shape_to_key (key in range, denotes the linear index - hence every position "
+        "once, row-major) for rank <= 3 with *unbounded* sizes and index; output_key/input_keys/shape of fixed specs with unbounded sizes; a "
+        "generated family of well-formed specs (<= 2 inputs of rank <= 2, axis choice i/j/':' per axis, output order, internal axis position, 1-2 "
+        "outputs, whitespace variants) checked for from_string/str round trip, shape()/mask or ValueError, index maps over all linear indices, "
+        "rename and add_axes; listed malformed strings and objects must be rejected. One recorded finding (parser leniency) is pinned.",
+        "Trusted: z3, CrossHair path exhaustion and builtin models. The string half is decided on structure: strings are concrete on each path "
+        "(CrossHair cannot close regex matching over free symbolic strings). Outside: > 2 inputs/outputs, rank > 3, other names.",
+        "6 C08",
+        TECH,
+    ),
 }
 
 NOT_APPLICABLE = {
